@@ -269,9 +269,11 @@ pub fn dominance_concurrent(seed: u64, threads: usize, ops: usize, use_value: bo
             sc.spawn(move || {
                 let mut rng = Rng::derive(seed, &[t as u64, 0xD0]);
                 let mut local = vec![];
+                // a third of the histories use large coordinates (fronts of many incomparable entries)
+                let (m0, m1) = if seed % 3 == 0 { (24u64, 24u64) } else { (4, 3) };
                 barrier.wait();
                 for _ in 0..ops {
-                    let q = Query { s: DState { key: rng.below(2) as i8, c0: rng.below(4) as i8, c1: rng.below(3) as i8 }, depth: rng.below(2) as u8, value: rng.below(4) as i8 };
+                    let q = Query { s: DState { key: rng.below(2) as i8, c0: rng.below(m0) as i8, c1: rng.below(m1) as i8 }, depth: rng.below(2) as u8, value: rng.below(4) as i8 };
                     spin(&mut rng);
                     let inv = clock.fetch_add(1, AO::SeqCst);
                     let r = chk.is_dominated_or_insert(Arc::new(q.s), q.depth as usize, q.value as isize);
@@ -309,7 +311,8 @@ pub fn dominance_concurrent(seed: u64, threads: usize, ops: usize, use_value: bo
     }
     // after quiescence: the store answers every query of the universe exactly as the Pareto front of everything presented
     let mut reference: Vec<(DState, u8, isize)> = all.iter().map(|r| (r.q.s, r.q.depth, r.q.value as isize)).collect();
-    for key in 0..2i8 { for c0 in 0..4i8 { for c1 in 0..3i8 { for depth in 0..2u8 { for value in 0..4i8 {
+    let (fm0, fm1) = if seed % 3 == 0 { (24i8, 24i8) } else { (4, 3) };
+    for key in 0..2i8 { for c0 in 0..fm0 { for c1 in 0..fm1 { for depth in 0..2u8 { for value in 0..4i8 {
         let s = DState { key, c0, c1 };
         let got = chk.is_dominated_or_insert(Arc::new(s), depth as usize, value as isize).dominated;
         let want = ref_dominated(&reference, &s, depth, value as isize, use_value);
